@@ -22,4 +22,3 @@ var errSQLiteBusy error = sqlite3.Error{Code: sqlite3.ErrBusy}
 
 // codedDriverErr is the error mattn/go-sqlite3 returns for a primary result code.
 func codedDriverErr(code int) error { return sqlite3.Error{Code: sqlite3.ErrNo(code)} }
-
